@@ -171,6 +171,71 @@ func c04Units(ctx *core.Ctx) []core.Unit {
 		}
 		r.Sample(map[string]interface{}{"layout": "L0|R0|L1|R1|L2|R2|L3|R3 in one backing array", "rounds": 2})
 	}})
+	us = append(us, core.Unit{Name: "honest openings prove and verify after calls that ended with an error", Run: func(ctx *core.Ctx, r *core.Result) {
+		needRef()
+		c := conf()
+		polys := polyAlphabet(ctx.Seed)
+		pA, pB := polys[12], polys[13]
+		aA, aB := frsFromBig(pA.V), frsFromBig(pB.V)
+		cmA, cmB := c.Commit(aA), c.Commit(aB)
+		honest := func(in string, cm banderwagon.Element, a []fr.Element, poly namedPoly, z *big.Int) {
+			var pr ipa.IPAProof
+			var err, verr error
+			var ok bool
+			y := frFromBig(ref.Inner(poly.V, ref.BVec(z)))
+			if !timed(r, "c04.panic", "ipa.CreateIPAProof / CheckIPAProof", in, func() {
+				pr, err = ipa.CreateIPAProof(common.NewTranscript("ipa"), c, cm, append([]fr.Element(nil), a...), frFromBig(z))
+				if err == nil {
+					ok, verr = ipa.CheckIPAProof(common.NewTranscript("ipa"), c, cm, pr, frFromBig(z), y)
+				}
+			}) {
+				return
+			}
+			r.Evals++
+			r.Nontrivial++
+			if err != nil || verr != nil || !ok {
+				vio(r, "c04.verify", "ipa.CreateIPAProof / CheckIPAProof", in, "the honest opening is accepted (nothing survives a call that ended with an error)", fmt.Sprintf("ok=%v prover error=%v verifier error=%v", ok, err, verr))
+			}
+		}
+		pts := []*big.Int{bi(300), bi(5), new(big.Int).Sub(bigR, bi(1))}
+		failing := []struct {
+			name string
+			run  func(z *big.Int)
+		}{
+			{"CreateIPAProof for the commitment of B with only 255 evaluations", func(z *big.Int) {
+				ipa.CreateIPAProof(common.NewTranscript("ipa"), c, cmB, append([]fr.Element(nil), aB[:255]...), frFromBig(z))
+			}},
+			{"CreateIPAProof for the commitment of B with 257 evaluations", func(z *big.Int) {
+				ipa.CreateIPAProof(common.NewTranscript("ipa"), c, cmB, append(append([]fr.Element(nil), aB...), fr.One()), frFromBig(z))
+			}},
+			{"CheckIPAProof of B's opening with one L point missing", func(z *big.Int) {
+				pr, err := ipa.CreateIPAProof(common.NewTranscript("ipa"), c, cmB, append([]fr.Element(nil), aB...), frFromBig(z))
+				if err != nil {
+					return
+				}
+				bad := ipa.IPAProof{L: pr.L[:len(pr.L)-1], R: pr.R, A_scalar: pr.A_scalar}
+				ipa.CheckIPAProof(common.NewTranscript("ipa"), c, cmB, bad, frFromBig(z), fr.One())
+			}},
+			{"CheckIPAProof of a false value for B", func(z *big.Int) {
+				pr, err := ipa.CreateIPAProof(common.NewTranscript("ipa"), c, cmB, append([]fr.Element(nil), aB...), frFromBig(z))
+				if err != nil {
+					return
+				}
+				ipa.CheckIPAProof(common.NewTranscript("ipa"), c, cmB, pr, frFromBig(z), frFromBig(bi(12345)))
+			}},
+		}
+		for _, f := range failing {
+			for _, z := range pts {
+				// history: an honest opening of A, the failing call about B, then honest openings of B and A
+				honest(fmt.Sprintf("%s at %s before the failing call", pA.Name, clipHex(z)), cmA, aA, pA, z)
+				if !timed(r, "c04.panic", "ipa.CreateIPAProof / CheckIPAProof", f.name, func() { f.run(z) }) {
+					return
+				}
+				honest(fmt.Sprintf("%s at %s, after (%s)", pB.Name, clipHex(z), f.name), cmB, aB, pB, z)
+				honest(fmt.Sprintf("%s at %s, after (%s)", pA.Name, clipHex(z), f.name), cmA, aA, pA, z)
+			}
+		}
+	}})
 	us = append(us, core.Unit{Name: "computeBVector boundary 250..260 and far points", Run: func(ctx *core.Ctx, r *core.Result) {
 		needRef()
 		c := conf()
